@@ -87,6 +87,8 @@ def build(unit, extra_edits=None):
     prov = {'unit': unit.name, 'items': [], 'outlines': []}
     parts.append('// GENERATED on every run from %s by /verif/tools - do not edit.\n' % REPO)
     parts.append('#![allow(unused_imports, dead_code, unused_variables, unused_mut, unused_assignments, non_snake_case)]\n')
+    if getattr(unit, 'crate_attrs', ''):
+        parts.append(unit.crate_attrs + '\n')
     parts.append('use vstd::prelude::*;\n' + unit.uses + '\n' + unit.pre_verus + '\nverus! {\n')
     for sf in unit.spec_files:
         with open(os.path.join(VERIF, 'spec', sf), encoding='utf-8') as f:
